@@ -27,32 +27,85 @@ theorem addAll_append_of_nodup : ∀ (l s : List Nat), (s ++ l).Nodup → addAll
 theorem addAll_nil {l : List Nat} (h : l.Nodup) : addAll [] l = l := by
   simpa using addAll_append_of_nodup l [] (by simpa using h)
 
-/-- with both resets in place a run does not depend on the state it starts from -/
-theorem runOn_of_clears {fl : RunFlags} (h1 : fl.selfClear = true) (h2 : fl.edgeClear = true)
-    (th : Thresholds) (nv : Nat) (st : RunState) (inp : RunInput) :
-    runOn fl th nv st inp = runOn fl th nv RunState.fresh inp := by
-  unfold runOn
-  have ho : openAttr fl.edgeClear st.featE = openAttr fl.edgeClear RunState.fresh.featE := by
-    unfold openAttr
-    cases st.featE <;> simp [h2, RunState.fresh]
-  simp only [h1, if_true, ho]
+theorem withDQ_dqOf (es : List EdgeInfo) : withDQ es (dqOf es) = es := by
+  unfold withDQ dqOf
+  rw [List.zipWith_map_right]
+  induction es with
+  | nil => rfl
+  | cons e rest ih => simp only [List.zipWith_cons_cons]; rw [ih]
 
-/-- … hence the last run of ANY history equals the run on a fresh mesh with a fresh detector -/
-theorem runHistory_last {fl : RunFlags} (h1 : fl.selfClear = true) (h2 : fl.edgeClear = true)
-    (th : Thresholds) (nv : Nat) (inp : RunInput) :
-    ∀ (hist : List (Bool × RunInput)) (st : RunState),
-      runHistory fl th nv st (hist ++ [(true, inp)]) = runOn fl th nv RunState.fresh inp := by
+/-- the normals a run works with: the attribute if there is one (just injected, or left on the mesh), else the
+current geometry -/
+theorem runOn_inj {fl : RunFlags} (th : Thresholds) (nv : Nat) (st : RunState) (inp : RunInput)
+    (hinj : inp.inj = true) :
+    runOn fl th nv st inp = runOn fl th nv { st with normals := none } inp := by
+  unfold runOn
+  simp only [hinj, if_true]
+
+/-- with the resets in place, and no normals attribute left on the mesh (or one just written by the caller),
+a run does not depend on the state it starts from -/
+theorem runOn_of_clears {fl : RunFlags} (h1 : fl.selfClear = true) (h2 : fl.edgeClear = true)
+    (th : Thresholds) (nv : Nat) (st : RunState) (inp : RunInput)
+    (hn : st.normals = none ∨ inp.inj = true) :
+    runOn fl th nv st inp = runOn fl th nv RunState.fresh inp := by
+  have key : ∀ st' : RunState, st'.normals = none → runOn fl th nv st' inp = runOn fl th nv RunState.fresh inp := by
+    intro st' hst
+    unfold runOn
+    have ho : openAttr fl.edgeClear st'.featE = openAttr fl.edgeClear RunState.fresh.featE := by
+      unfold openAttr
+      cases st'.featE <;> simp [h2, RunState.fresh]
+    have hn' : RunState.fresh.normals = none := rfl
+    simp only [h1, if_true, ho, hst, hn']
+  rcases hn with hn | hn
+  · exact key st hn
+  · rw [runOn_inj th nv st inp hn]
+    exact key _ rfl
+
+/-- a run that computes its own normals non-persistently leaves no normals attribute behind -/
+theorem runOn_normals_none {fl : RunFlags} (h3 : fl.normalsPersistent = false) (th : Thresholds) (nv : Nat)
+    (st : RunState) (inp : RunInput) (hst : st.normals = none) (hinj : inp.inj = false) :
+    (runOn fl th nv st inp).normals = none := by
+  unfold runOn
+  simp [hinj, hst, h3]
+
+theorem runHistory_normals_none {fl : RunFlags} (h3 : fl.normalsPersistent = false) (th : Thresholds) (nv : Nat) :
+    ∀ (hist : List (Bool × RunInput)) (st : RunState), st.normals = none → (∀ r ∈ hist, r.2.inj = false) →
+      (runHistory fl th nv st hist).normals = none := by
   intro hist
   induction hist with
-  | nil =>
-    intro st
-    simp only [List.nil_append, runHistory, if_true]
-    exact runOn_of_clears h1 h2 th nv st inp
+  | nil => intro st h _; simpa [runHistory] using h
   | cons a rest ih =>
-    intro st
+    intro st hst hall
     obtain ⟨sd, i0⟩ := a
-    simp only [List.cons_append, runHistory]
-    exact ih _
+    have hi0 : i0.inj = false := hall (sd, i0) List.mem_cons_self
+    simp only [runHistory]
+    apply ih
+    · cases sd
+      · simp only [Bool.false_eq_true, if_false]
+        exact runOn_normals_none h3 th nv _ i0 hst hi0
+      · simp only [if_true]
+        exact runOn_normals_none h3 th nv _ i0 hst hi0
+    · intro r hr; exact hall r (List.mem_cons_of_mem _ hr)
+
+/-- … hence the last run of a history equals the run on a fresh mesh with a fresh detector, provided the normals
+it sees are the caller's: either the caller never wrote a `normals` attribute (then every run uses the geometry
+of its moment), or the caller wrote one just before the last run -/
+theorem runHistory_last {fl : RunFlags} (h1 : fl.selfClear = true) (h2 : fl.edgeClear = true)
+    (h3 : fl.normalsPersistent = false) (th : Thresholds) (nv : Nat) (inp : RunInput)
+    (hist : List (Bool × RunInput)) (st : RunState) (hst : st.normals = none)
+    (hn : (∀ r ∈ hist, r.2.inj = false) ∨ inp.inj = true) :
+    runHistory fl th nv st (hist ++ [(true, inp)]) = runOn fl th nv RunState.fresh inp := by
+  have happ : ∀ (hist : List (Bool × RunInput)) (st : RunState),
+      runHistory fl th nv st (hist ++ [(true, inp)]) = runOn fl th nv (runHistory fl th nv st hist) inp := by
+    intro hist
+    induction hist with
+    | nil => intro st; simp [runHistory]
+    | cons a rest ih => intro st; obtain ⟨sd, i0⟩ := a; simp only [List.cons_append, runHistory]; exact ih _
+  rw [happ]
+  apply runOn_of_clears h1 h2
+  rcases hn with hn | hn
+  · exact Or.inl (runHistory_normals_none h3 th nv hist st hst hn)
+  · exact Or.inr hn
 
 theorem nodup_filter_range (n : Nat) (p : Nat → Bool) : ((List.range n).filter p).Nodup :=
   List.nodup_range.sublist List.filter_sublist
@@ -66,8 +119,6 @@ theorem runOn_fresh (fl : RunFlags) (th : Thresholds) (nv : Nat) (inp : RunInput
     (runOn fl th nv RunState.fresh inp).det.deg = degrees inp.es (featureEdges th inp.onlyBorder inp.es) ∧
     (runOn fl th nv RunState.fresh inp).det.locKeys =
       featureVertices nv inp.es (featureEdges th inp.onlyBorder inp.es) := by
-  have hflag : flaggedFrom th inp.onlyBorder inp.es (openAttr fl.edgeClear RunState.fresh.featE)
-      = flagged th inp.onlyBorder inp.es := rfl
   have hdet : (if fl.selfClear = true then DetState.fresh else RunState.fresh.det) = DetState.fresh := by
     cases fl.selfClear <;> rfl
   have hfe : (List.range inp.es.length).filter (fun e => (flagged th inp.onlyBorder inp.es).contains e)
@@ -81,8 +132,14 @@ theorem runOn_fresh (fl : RunFlags) (th : Thresholds) (nv : Nat) (inp : RunInput
   have h2 : addAll [] (featureVertices nv inp.es (featureEdges th inp.onlyBorder inp.es))
       = featureVertices nv inp.es (featureEdges th inp.onlyBorder inp.es) :=
     addAll_nil (nodup_filter_range _ _)
+  have hopen : openAttr fl.edgeClear RunState.fresh.featE = [] := rfl
+  have hflag : flaggedFrom th inp.onlyBorder inp.es [] = flagged th inp.onlyBorder inp.es := rfl
+  have hnone : RunState.fresh.normals = none := rfl
   unfold runOn
-  simp only [hflag, hdet, hfe, e1, e2, e3, e4, h1, h2]
-  exact ⟨trivial, trivial, trivial, rfl, trivial⟩
+  cases hinj : inp.inj
+  · simp only [Bool.false_eq_true, if_false, hnone, hopen, hflag, hdet, hfe, e1, e2, e3, e4, h1, h2]
+    exact ⟨trivial, trivial, trivial, rfl, trivial⟩
+  · simp only [if_true, withDQ_dqOf, hopen, hflag, hdet, hfe, e1, e2, e3, e4, h1, h2]
+    exact ⟨trivial, trivial, trivial, rfl, trivial⟩
 
 end Mouette.Features
